@@ -59,12 +59,26 @@ func (l *LamportClock) Merge(clock iface.IPFSLogLamportClock) iface.IPFSLogLampo
 // Compare calculate the "distance" based on the clock, ie. lower or greater.
 func (l *LamportClock) Compare(b iface.IPFSLogLamportClock) int {
 	// TODO: Make it a Golang slice-compatible sort function
-	dist := l.Time - b.GetTime()
+	other := b.GetTime()
 
 	// If the sequence number is the same (concurrent events),
 	// return the comparison between IDs
-	if dist == 0 {
+	if l.Time == other {
 		return bytes.Compare(l.ID, b.GetID())
+	}
+
+	dist := l.Time - other
+
+	// The subtraction wraps around when the two times are further apart than
+	// the int range (clock times decoded from untrusted blocks can be
+	// negative): saturate, so that the sign always reflects the order and the
+	// result can safely be negated.
+	if l.Time > other && dist <= 0 {
+		return math.MaxInt
+	}
+
+	if l.Time < other && (dist >= 0 || dist == math.MinInt) {
+		return -math.MaxInt
 	}
 
 	return dist
